@@ -1315,6 +1315,48 @@ def accumulate_to_comprehension(tree):
     return n[0]
 
 
+def accumulate_to_sum(tree):
+    """`T = 0` ... `for X in IT: T += E`  ->  `T = sum(E for X in IT)` when nothing in between (nor E, IT) mentions T: the
+    left-to-right sum the builtin computes."""
+    n = [0]
+
+    def process(body):
+        i = 0
+        while i < len(body):
+            st = body[i]
+            if not isinstance(st, (ast.FunctionDef, ast.AsyncFunctionDef, ast.ClassDef)):
+                for name, b in list(_blocks(st)):
+                    process(b)
+            else:
+                process(st.body)
+            if isinstance(st, ast.For) and not st.orelse and len(st.body) == 1 and isinstance(st.body[0], ast.AugAssign) \
+                    and isinstance(st.body[0].op, ast.Add) and isinstance(st.body[0].target, ast.Name):
+                T = st.body[0].target.id
+                E = st.body[0].value
+                if not _mentions(E, T) and not _mentions(st.iter, T) and not _mentions(st.target, T):
+                    j = i - 1
+                    while j >= 0 and not _mentions(body[j], T):
+                        j -= 1
+                    init = body[j] if j >= 0 else None
+                    if isinstance(init, ast.Assign) and len(init.targets) == 1 and isinstance(init.targets[0], ast.Name) \
+                            and init.targets[0].id == T and isinstance(init.value, ast.Constant) and init.value.value in (0, 0.0) \
+                            and not isinstance(init.value.value, bool):
+                        tgt = copy.deepcopy(st.target)
+                        for x in ast.walk(tgt):
+                            if isinstance(x, ast.Name):
+                                x.ctx = ast.Store()
+                        gen = ast.GeneratorExp(elt=E, generators=[ast.comprehension(target=tgt, iter=st.iter, ifs=[], is_async=0)])
+                        call = ast.Call(func=ast.Name(id="sum", ctx=ast.Load()), args=[gen], keywords=[])
+                        body[i] = ast.copy_location(ast.Assign(targets=[ast.Name(id=T, ctx=ast.Store())], value=call), st)
+                        del body[j]
+                        n[0] += 1
+                        continue
+            i += 1
+    process(tree.body)
+    ast.fix_missing_locations(tree)
+    return n[0]
+
+
 def _after(fn, st, node):
     """node occurs textually after statement st (inlined code shares line numbers, so positions in a pre-order walk are used)."""
     order = {id(x): i for i, x in enumerate(ast.walk(fn))}
@@ -1644,6 +1686,8 @@ def canonicalise_program(trees, known_by_rel, params_by_rel=None):
     for rel, tree in trees.items():
         inline_module_constants(tree)
         numpy_spellings(tree)
+        from .canon2 import respell
+        respell(tree)
         _Polarity().visit(tree)
         tree.body = _restructure(tree.body)
         _AttrCalls().visit(tree)
